@@ -18,7 +18,9 @@ from props import C08_faults as F
 
 THEOREMS = ["C08_no_stutter", "C08_no_stutter_iter", "C08_zero_time_bounded", "C08_inv", "C08_receive_any_chunking",
             "C08_one_good_exchange", "C08_one_good_exchange_example", "C08_converge_partial", "C08_zero_time_example",
-            "C08_reconnect_paced", "C08_converge", "C08_converge_reachable", "C08_converge_full_refuted", "C08_converge_full_repaired_holds"]
+            "C08_reconnect_paced", "C08_converge", "C08_converge_reachable", "C08_converge_full_refuted", "C08_converge_full_repaired_holds",
+            "C08_snapshot", "C08_snapshot_step", "C08_snapshot_gives_hyp", "C08_answer_truthful_reset", "C08_answer_truthful_delta",
+            "C08_converge_after_any_faults"]
 
 CFGS = [(3600, 7200, 600, 0), (1, 600, 1, 2), (30, 7200, 7200, 3), (86400, 172800, 600, 1), (3600, 600, 1, 0)]
 
